@@ -1085,3 +1085,8 @@ M('C17', 'check-attr-without-z', FLT, "['git', 'check-attr', '-z', 'filter', '--
 T('C17', 'twin-check-attr-arguments-in-a-local', FLT, "        spec = check_output(['git', 'check-attr', '-z', 'filter', '--', path])", "        argv = ['git', 'check-attr', '-z', 'filter', '--', path]\n        spec = check_output(argv)")
 M('C03', 'two-sided-removal-with-insert-folded-into-the-insert-arm', MG, '        elif chunktype in ("AR/R", "R/AR"):\n            # Identical (ensured by chunking) twosided removal with insertion just before one of them\n            decisions.onesided(path, a0, a1)\n            decisions.agreement(path, p0, p1)\n        elif chunktype in ("AR/A", "A/AR", "A/A", "AR/AR"):',
   '        elif chunktype in ("AR/A", "A/AR", "A/A", "AR/AR", "AR/R", "R/AR"):', 'R03.1')
+M('C18', 'global-attributes-location-depends-on-existence', UT, "            gitattributes = os.path.expanduser(bpath.decode('utf8', 'replace').strip())\n", "            gitattributes = os.path.expanduser(bpath.decode('utf8', 'replace').strip())\n            if not os.path.isfile(gitattributes):\n                raise CalledProcessError(1, 'git')\n", 'R18.16')
+M('C19', 'first-seen-config-sections-copied-shallowly', CFGPY, "            if k not in target:\n                target[k] = {}\n            recursive_update(target[k], v, include_none)\n", "            if k not in target:\n                target[k] = dict(v)\n            else:\n                recursive_update(target[k], v, include_none)\n", 'R19.14')
+T('C19', 'twin-recursive-update-uses-setdefault', CFGPY, "            if k not in target:\n                target[k] = {}\n            recursive_update(target[k], v, include_none)\n", "            target.setdefault(k, {})\n            recursive_update(target[k], v, include_none)\n")
+M('C01', 'attachments-skipped-when-the-alignment-predicate-agrees', NBD, "        dd = diff_mime_bundle(avalue, bvalue)\n        if dd:\n            di.patch(key, dd)", "        if compare_mimebundle_strict(avalue, bvalue):\n            continue\n        dd = diff_mime_bundle(avalue, bvalue)\n        if dd:\n            di.patch(key, dd)", 'R01.27')
+T('C01', 'twin-attachments-skipped-when-strictly-equal', NBD, "        dd = diff_mime_bundle(avalue, bvalue)\n        if dd:\n            di.patch(key, dd)", "        if strict_equal(avalue, bvalue):\n            continue\n        dd = diff_mime_bundle(avalue, bvalue)\n        if dd:\n            di.patch(key, dd)")
